@@ -9,7 +9,9 @@ Forest == TLCGet(2)
 
 C17Step(s, ev) ==
   IF ev.e = "Format"
-  THEN LET want == FormatList(<<ev.value>>, ev.fmt) IN
+  THEN LET \* value= is an expression: "the value is rounded to an integer (as by round())" - ev.value8 is the value in eighths
+           n == IF "value8" \in DOMAIN ev THEN Round(Fin(FALSE, ev.value8)).m \div 8 ELSE ev.value
+           want == FormatList(<<n>>, ev.fmt) IN
        [ok |-> want = ev.out, st |-> s, cont |-> TRUE, drop |-> FALSE,
         msg |-> "format: want " \o ToString(want) \o " got " \o ToString(ev.out)]
   ELSE LET n == <<ev.doc, ev.node, 0>>
